@@ -18,7 +18,7 @@ ASSUMPTIONS = c10.ASSUMPTIONS + ['statistical re-synchronisation bound is outsid
 
 def obligations(tier):
     base = {o.id: o for o in c10.obligations(tier)}
-    l1 = [o for o in c01.obligations(tier) if o.id == 'L1']
+    l1 = [o for o in c01.obligations(tier) if o.id in ('L1', 'L1v')]
     return [base['TV'], base['N0'], base['N4'], base['N5'], base['W.native'], base['W.big']] + l1 + [
             Ob('KEY', 'S', 'bit-exact CLMUL: exists buffer and two keys with different cuts (key personalises boundaries); replayed natively',
                '16-byte buffer, min 4 max 12', ['src/adapters.cpp:key'], engine='python', module=IR, func='key_witness', timeout=900, twin=False),
